@@ -43,7 +43,8 @@ class Prop:
             "a cookie reply; receive side across Down/Up: answered initiation, restart, replay of the same bytes / older / equal / newer "
             "timestamps from several addresses, response to a pre-restart initiation; responses whose receiver is replaced (MAC1 recomputed) by every "
             "index the device ever issued for the peer (session indices in next/current/previous, deleted ones) while a new initiation is outstanding; "
-            "4..12 goroutines calling SendHandshakeInitiation at once (48+ rounds): exactly one initiation may leave; device-emitted timestamps across a restart only in "
+            "valid initiations with crafted increasing timestamps fired back to back (judged against the 1/50 s of the property text with the "
+            "conservative bound settle-time(second) - inject-time(first) < 20 ms); 4..12 goroutines calling SendHandshakeInitiation at once (48+ rounds): exactly one initiation may leave; device-emitted timestamps across a restart only in "
             "the dedicated F7 scenario; non-trivial = scenario with at least one accepted and one inert handshake message; distinct by content hash")
     assumptions = ["messages whose MAC1 does not verify (or that fail the size/type gate) must be silent and inert under load too; for messages with a "
                    "valid MAC1 the no-reply clauses are for a device not under load (under load the cookie reply is C10's business and is only mirrored, not judged)",
@@ -215,6 +216,20 @@ def check(tier, seed):
         sys.stdout = tee.out
     printed = "".join(tee.lines)
     mism = [f for f in getattr(p, "last_fails", []) if f["kind"] == 1]
+    # ... and likewise a broken proof obligation (e.g. C06_constants no longer holding for the regenerated
+    # constants) is swallowed by the engine when a known finding was printed in the same run.
+    try:
+        ev = json.load(open(os.path.join(vlib.EVIDENCE, "C06.json")))
+        broken = [b for b in ev["coverage"].get("broken_obligations", []) if b != "K"]
+    except Exception:
+        broken = []
+    if broken and "no-failing-input-found" not in printed and "VIOLATION" not in printed:
+        path = vlib.write_replay("C06", seed, {"property": "C06", "kind": "obligation no longer checks; no failing input found",
+                                               "obligations": broken,
+                                               "note": "a theorem of Props/C06.v does not build against the constants regenerated from this tree"}, tag="_T")
+        vlib.emit_violation("C06", path, no_input=True)
+        printed += "no-failing-input-found"
+        rc = 1
     if mism and "no-failing-input-found" not in printed:
         first = p.last_cases[mism[0]["case"]] if p.last_cases else None
         path = vlib.write_replay("C06", seed, {"property": "C06", "kind": "obligation no longer checks; no failing input found",
